@@ -62,3 +62,10 @@ Qed.
 
 Lemma R_of_regs m m' i : mregs m' = mregs m -> R m' i = R m i.
 Proof. unfold R. now intros ->. Qed.
+
+Lemma rset_rset_same r i a b : rset (rset r i a) i b = rset r i b.
+Proof.
+  unfold rset. repeat (destruct (i =? _); [reflexivity|]). reflexivity.
+Qed.
+Lemma setR_setR_same m i a b : setR (setR m i a) i b = setR m i b.
+Proof. unfold setR, with_regs. cbn [mregs mbus]. now rewrite rset_rset_same. Qed.
